@@ -13,7 +13,11 @@ def prop(id, armed, technique, text, note, na_reason=None):
 
 NOT_YET = "rules designed in DESIGN.md but not armed in the checker yet; nothing is claimed until they are"
 
-prop("C01", False, "", "", "", NOT_YET)
+prop("C01", True,
+     "table extraction of the operation constant along call paths, affine copy-loop analysis of the converters, abstract interpretation over the order domain for the rectangle shortcuts, AST rule over the dependency's trivial-case switches",
+     "Decides the geom-side plumbing around the external clipper and the rectangle shortcuts completely: (R1) each of the 12 receiver×method combinations reaches Construct with its own operation constant; (R2) subject built from the receiver only, clipping operand from every polygon of the parameter, converter copies every ring/vertex at the same index; (R3) result rings get len+1 vertices with last=first; (R4) box-box intersection, the three shortcuts for a general Polygonal argument, Within(*Bounds) and Polygons() agree with the order-level box relation for every weak ordering (exhaustive); (R5) the clipper's trivial-case switches treat XOR like UNION (read from the dependency's source).",
+     "Not decided: the sweep-line clipper for overlapping operands (external numerical algorithm), hence the point-set identity and area identities themselves. Two open known findings (R5: XOR of disjoint/empty operands is empty in polyclip-go v1.1.0).",
+     None)
 prop("C02", True,
      "affine loop/index analysis (segment pair sets), shape rules on the type-checked AST, abstract interpretation over the order domain for the pre-filter and for the comparison-only prefixes of the two segment predicates",
      "Structural necessary conditions: (R1) the on-segment and the ray test each see exactly the closed ring (chain 0..len-2 plus the closing pair) of every ring; (R2) OnEdge is returned at once, crossings toggle an even-odd status across rings and member polygons, rings are skipped only for len<3 or by the box pre-filter; (R3) the pre-filter is the closed-box test of the ring's own bounds (never skips a point in or on the box; exhaustive over orderings); (R4) the vertex-wise receivers visit everything and return Outside exactly on an Outside vertex; (R5) every answer the two segment predicates give by comparisons alone equals the order-level geometric truth, for all 169 orderings of {p,a,b} per predicate (either perturbation convention). Thin by nature: the final slope comparisons are arithmetic and not decided.",
@@ -43,8 +47,16 @@ prop("C10", True,
      None)
 prop("C11", False, "", "", "", NOT_YET)
 prop("C12", False, "", "", "", NOT_YET)
-prop("C13", False, "", "", "", NOT_YET)
-prop("C14", False, "", "", "", NOT_YET)
+prop("C13", True,
+     "stutter-path detection (symbolic header-to-header paths + interval feasibility over len(x)), path-sensitive vetting dataflow, shape rules on the append sites, affine copy-loop analysis",
+     "Structural necessary conditions: (R1) the curve simplifier has no loop path that changes nothing its conditions read and is feasible on the first iteration (definite non-termination, witness interval on len(curve)); (R2) output fresh, every appended vertex is an input vertex, input never written, first vertex kept first, exit flag raised only right after appending the last vertex and is the only way out; (R3) every kept vertex is the scan start, adjacent to the previous kept one, or its replacing segment was tested against kept output, remaining input and other curves; (R4) Multi* methods map member i to index i over the full range and Polygon passes all rings as obstacles.",
+     "Not decided: the tolerance guarantee, order of kept indices, termination on later iterations / for self-intersecting inputs (documented upstream as out of contract). One open known finding (R3: the final 'append last point regardless' segment is not vetted).",
+     None)
+prop("C14", True,
+     "operation-constant extraction along call paths, affine copy/strip loop analysis, AST rule over the dependency's segment loop",
+     "Thin by nature (the clipping is done by the external clipper): (R1) the line(s) become the subject contours one-to-one, the polygon is the clipping operand, the mode is CLIPLINE; (R2) every returned piece is result[i][0:len-1], i.e. strips exactly the one vertex the result converter appends; (R3) the clipper skips the subject's closing segment in CLIPLINE mode.",
+     "Not decided: everything the external clipper computes (that pieces lie on L and inside P, total length, emptiness).",
+     None)
 prop("C15", True,
      "path-sensitive AST dataflow (must-facts) + callee summaries + shape matching on the type-checked program",
      "Structural necessary conditions of symmetry and of 'false when counts/types differ', decided on every path of every Similar method: "
